@@ -205,7 +205,223 @@ func maskingSites(c *Ctx, p *packages.Package) []string {
 			})
 		}
 	}
+	hits = append(hits, inconsistentEOFMapping(c, p)...)
 	sort.Strings(hits)
+	return hits
+}
+
+// inconsistentEOFMapping — contradiction rule inside one function of a decoder: when a function maps the error of some of its
+// reads of the source through the package's "no EOF" wrapper (a function turning io.EOF into io.ErrUnexpectedEOF), every read
+// after its first one must be mapped too. A read whose error is returned bare after bytes of the same unit have been consumed
+// (klauspost/compress/gzip readHeader: the name and comment strings, where compress/gzip has noEOF) turns a stream cut inside
+// that field into a clean end of data.
+func inconsistentEOFMapping(c *Ctx, p *packages.Package) []string {
+	info := p.TypesInfo
+	isIOName := func(e ast.Expr, name string) bool {
+		sel, ok := ast.Unparen(e).(*ast.SelectorExpr)
+		if !ok {
+			return false
+		}
+		o := info.ObjectOf(sel.Sel)
+		return o != nil && o.Pkg() != nil && o.Pkg().Path() == "io" && o.Name() == name
+	}
+	// wrappers: package functions of one error parameter mentioning both io.EOF and io.ErrUnexpectedEOF
+	wrappers := map[types.Object]bool{}
+	var decls []*ast.FuncDecl
+	for _, f := range p.Syntax {
+		if strings.HasSuffix(c.Fset.Position(f.Pos()).Filename, "_test.go") {
+			continue
+		}
+		for _, d := range f.Decls {
+			fd, ok := d.(*ast.FuncDecl)
+			if !ok || fd.Body == nil {
+				continue
+			}
+			decls = append(decls, fd)
+			if fd.Recv == nil && fd.Type.Params.NumFields() == 1 && fd.Type.Results.NumFields() == 1 {
+				eof, ueof := false, false
+				ast.Inspect(fd.Body, func(m ast.Node) bool {
+					if e, ok := m.(ast.Expr); ok {
+						if isIOName(e, "EOF") {
+							eof = true
+						}
+						if isIOName(e, "ErrUnexpectedEOF") {
+							ueof = true
+						}
+					}
+					return true
+				})
+				if eof && ueof {
+					wrappers[info.Defs[fd.Name]] = true
+				}
+			}
+		}
+	}
+	if len(wrappers) == 0 {
+		return nil
+	}
+	type site struct {
+		pos     token.Pos
+		what    string
+		bare    bool
+		wrapped bool
+	}
+	primitive := func(call *ast.CallExpr) string {
+		for _, n := range []string{"ReadFull", "ReadAtLeast"} {
+			if isIOName(call.Fun, n) {
+				return "io." + n
+			}
+		}
+		if sel, ok := ast.Unparen(call.Fun).(*ast.SelectorExpr); ok && sel.Sel.Name == "ReadByte" && len(call.Args) == 0 {
+			return "ReadByte"
+		}
+		return ""
+	}
+	var sitesOf func(fd *ast.FuncDecl, helper map[types.Object]string) []site
+	sitesOf = func(fd *ast.FuncDecl, helper map[types.Object]string) []site {
+		var out []site
+		ast.Inspect(fd.Body, func(n ast.Node) bool {
+			if _, isLit := n.(*ast.FuncLit); isLit {
+				return false
+			}
+			ifs, ok := n.(*ast.IfStmt)
+			if !ok {
+				return true
+			}
+			var as *ast.AssignStmt
+			if a, ok := ifs.Init.(*ast.AssignStmt); ok {
+				as = a
+			}
+			if as == nil || len(as.Rhs) != 1 {
+				return true
+			}
+			call, ok := ast.Unparen(as.Rhs[0]).(*ast.CallExpr)
+			if !ok {
+				return true
+			}
+			what := primitive(call)
+			if what == "" {
+				if f := callee(info, call); f != nil {
+					if via, ok := helper[f]; ok {
+						what = f.Name() + " (bare " + via + ")"
+					}
+				}
+			}
+			if what == "" {
+				return true
+			}
+			errObj := rootObj(info, as.Lhs[len(as.Lhs)-1])
+			if errObj == nil || !isErrorType(errObj.Type()) {
+				return true
+			}
+			st := site{pos: as.Pos(), what: what}
+			for _, bs := range ifs.Body.List {
+				if r, ok := bs.(*ast.ReturnStmt); ok {
+					for _, res := range r.Results {
+						res = ast.Unparen(res)
+						if id, ok := res.(*ast.Ident); ok && info.ObjectOf(id) == errObj {
+							st.bare = true
+						}
+						if wc, ok := res.(*ast.CallExpr); ok && wrappers[callee(info, wc)] {
+							st.wrapped = true
+						}
+					}
+				}
+			}
+			out = append(out, st)
+			return true
+		})
+		// the two-statement form  x, err = r.ReadByte(); if err != nil { return ..., err }
+		var walk func(list []ast.Stmt)
+		walk = func(list []ast.Stmt) {
+			for i, stt := range list {
+				switch x := stt.(type) {
+				case *ast.IfStmt:
+					if x.Init == nil && i > 0 {
+						if as, ok := list[i-1].(*ast.AssignStmt); ok && len(as.Rhs) == 1 {
+							if call, ok := ast.Unparen(as.Rhs[0]).(*ast.CallExpr); ok {
+								what := primitive(call)
+								if what == "" {
+									if f := callee(info, call); f != nil {
+										if via, ok := helper[f]; ok {
+											what = f.Name() + " (bare " + via + ")"
+										}
+									}
+								}
+								errObj := rootObj(info, as.Lhs[len(as.Lhs)-1])
+								if b, ok := ast.Unparen(x.Cond).(*ast.BinaryExpr); ok && what != "" && errObj != nil && isErrorType(errObj.Type()) && b.Op == token.NEQ && rootObj(info, b.X) == errObj {
+									st := site{pos: as.Pos(), what: what}
+									for _, bs := range x.Body.List {
+										if r, ok := bs.(*ast.ReturnStmt); ok {
+											for _, res := range r.Results {
+												res = ast.Unparen(res)
+												if id, ok := res.(*ast.Ident); ok && info.ObjectOf(id) == errObj {
+													st.bare = true
+												}
+												if wc, ok := res.(*ast.CallExpr); ok && wrappers[callee(info, wc)] {
+													st.wrapped = true
+												}
+											}
+										}
+									}
+									out = append(out, st)
+								}
+							}
+						}
+					}
+					walk(x.Body.List)
+					if eb, ok := x.Else.(*ast.BlockStmt); ok {
+						walk(eb.List)
+					}
+				case *ast.ForStmt:
+					walk(x.Body.List)
+				case *ast.RangeStmt:
+					walk(x.Body.List)
+				case *ast.BlockStmt:
+					walk(x.List)
+				}
+			}
+		}
+		walk(fd.Body.List)
+		sort.Slice(out, func(i, j int) bool { return out[i].pos < out[j].pos })
+		return out
+	}
+	// helpers: functions all of whose source reads are returned bare (readString)
+	helper := map[types.Object]string{}
+	for _, fd := range decls {
+		ss := sitesOf(fd, nil)
+		if len(ss) > 0 {
+			allBare := true
+			for _, st := range ss {
+				if !st.bare {
+					allBare = false
+				}
+			}
+			if allBare {
+				helper[info.Defs[fd.Name]] = ss[0].what
+			}
+		}
+	}
+	var hits []string
+	for _, fd := range decls {
+		ss := sitesOf(fd, helper)
+		nwrapped := 0
+		for _, st := range ss {
+			if st.wrapped {
+				nwrapped++
+			}
+		}
+		if nwrapped == 0 {
+			continue
+		}
+		for i, st := range ss {
+			if i == 0 || !st.bare || st.wrapped {
+				continue
+			}
+			ps := c.Fset.Position(st.pos)
+			hits = append(hits, fmt.Sprintf("%s:%d (%s maps the io.EOF of %d of its reads to io.ErrUnexpectedEOF but returns bare the error of %s, read after the first bytes of the unit)", shortPath(ps.Filename), ps.Line, fd.Name.Name, nwrapped, st.what))
+		}
+	}
 	return hits
 }
 
